@@ -162,6 +162,13 @@ pub struct MtState {
     pub races: u64,
     pub hb_checks: u64,
     pub max_steps: u64,
+    // ---- root-cause tag: successful CAS on a list word that other threads modified since this thread last read it
+    pub last_read: Vec<BTreeMap<usize, u64>>,
+    pub last_mod: BTreeMap<usize, (u64, usize)>,
+    pub aba: Vec<String>,
+    /// node offset -> (marking thread, did the CAS that followed its mark succeed?)
+    pub marks: BTreeMap<usize, (usize, Option<bool>)>,
+    pub pending_mark: Vec<Option<usize>>,
 }
 
 pub fn lock() -> MutexGuard<'static, Option<Box<MtState>>> {
@@ -210,6 +217,38 @@ impl MtState {
             return false;
         }
         (addr >= self.base && addr + width <= self.base + self.cap) || (addr >= self.mbox.0 && addr + width <= self.mbox.0 + self.mbox.1)
+    }
+
+    /// Structural classification of a stuck state: walk the list from the sentinel.
+    ///  * `stale-unlink`     – a node carrying the removal marker is reachable although the thread that marked it
+    ///                         completed its unlink CAS (the unlink went through a predecessor that was not in the
+    ///                         list, or the sentinel was changed and changed back: stale pointer / ABA)
+    ///  * `mark-not-undone`  – a marked node is reachable and the marker's unlink CAS failed (or never happened)
+    ///  * `list-corrupt`     – the walk does not reach the tail
+    ///  * `spin-on-unlinked` – the list is well formed; the spinning threads look at nodes that are not in it
+    pub fn classify_stuck(&self) -> &'static str {
+        if self.torn_down {
+            return "released";
+        }
+        let mem = unsafe { std::slice::from_raw_parts(self.base as *const u8, self.cap) };
+        let sentinel = unsafe { std::ptr::read_volatile(self.words[0] as *const u64) };
+        let mut next = sentinel as u32;
+        let mut n = 0;
+        while next != u32::MAX {
+            if next % 8 != 0 || next as usize + 8 > self.cap || n > 4096 {
+                return "list-corrupt";
+            }
+            let w = u64::from_le_bytes(mem[next as usize..next as usize + 8].try_into().unwrap());
+            if (w >> 32) == 0 {
+                return match self.marks.get(&(next as usize)) {
+                    Some((_, Some(true))) => "stale-unlink",
+                    _ => "mark-not-undone",
+                };
+            }
+            next = w as u32;
+            n += 1;
+        }
+        "spin-on-unlinked"
     }
 
     fn unfinished(&self) -> Vec<usize> {
@@ -276,7 +315,9 @@ impl MtState {
                     v.dedup();
                     v
                 };
-                self.violation("C07", "nontermination", format!("[{}] all unfinished threads busy-wait on unchanged words: {}", sig.join("+"), who.join("; ")));
+                let tag = format!("{} {}", self.classify_stuck(), sig.join("+"));
+                let abad = if self.aba.is_empty() { String::new() } else { format!(" (earlier in this run a CAS in {} succeeded on a list word that other threads had changed and changed back since it was read: ABA)", self.aba.join(", ")) };
+                self.violation("C07", "nontermination", format!("[{}] all unfinished threads busy-wait on unchanged words: {}{}", tag, who.join("; "), abad));
                 self.set_abort("nontermination", "V1".into());
                 return me.unwrap_or(run[0]);
             }
@@ -450,7 +491,7 @@ pub fn before(t: usize, a: &Access) -> bool {
     }
     let solo = s.unfinished().len() == 1;
     if (solo && s.steps_in_call[t] > SOLO_CALL_LIMIT) || s.steps - s.last_call_done_at > NO_CALL_LIMIT || s.steps > s.max_steps {
-        let f = crate::scen::linemap().func(a.line).to_string();
+        let f = format!("{} {}", s.classify_stuck(), crate::scen::linemap().func(a.line));
         let d = format!("[{}] T{} in {} made {} steps in one call (solo={}), {} steps since the last completed call; at {}:{}", f, t, s.in_call[t].clone().unwrap_or_default(), s.steps_in_call[t], solo, s.steps - s.last_call_done_at, short(a.file), a.line);
         s.violation("C07", "nontermination", d);
         s.set_abort("nontermination", "V2/V3".into());
@@ -518,6 +559,37 @@ pub fn after(t: usize, a: &Access) {
     };
     if a.success && matches!(a.kind, Kind::Cas) {
         s.switch_hint = true;
+    }
+    // ---- ABA bookkeeping on 8-byte words (segment nodes and the sentinel)
+    if a.width == 8 {
+        if a.success && matches!(a.kind, Kind::Cas | Kind::CasWeak) {
+            if let Some((ms, mt)) = s.last_mod.get(&a.addr).cloned() {
+                let lr = s.last_read[t].get(&a.addr).cloned().unwrap_or(0);
+                if mt != t && ms > lr {
+                    let f = crate::scen::linemap().func(a.line).to_string();
+                    if !s.aba.contains(&f) {
+                        s.aba.push(f);
+                    }
+                }
+            }
+        }
+        // removal marks and the outcome of the unlink CAS that follows them
+        if matches!(a.kind, Kind::Cas | Kind::CasWeak) {
+            if let Some(x) = s.pending_mark[t].take() {
+                if let Some(m) = s.marks.get_mut(&x) {
+                    m.1 = Some(a.success);
+                }
+            } else if a.success && (a.operand >> 32) == 0 && (a.expected >> 32) != 0 && a.addr >= s.base && a.addr < s.base + s.cap {
+                let off = a.addr - s.base;
+                s.marks.insert(off, (t, None));
+                s.pending_mark[t] = Some(off);
+            }
+        }
+        let step = s.steps;
+        s.last_read[t].insert(a.addr, step);
+        if changed {
+            s.last_mod.insert(a.addr, (step, t));
+        }
     }
     // ---- C12 clocks
     if s.hb {
@@ -1114,6 +1186,11 @@ pub fn install(arena: &Arena, p: &MtParams, initial_shadow: Vec<ShadowRange>) {
         races: 0,
         hb_checks: 0,
         max_steps: p.max_steps,
+        last_read: (0..n).map(|_| BTreeMap::new()).collect(),
+        last_mod: BTreeMap::new(),
+        aba: Vec::new(),
+        marks: BTreeMap::new(),
+        pending_mark: vec![None; n],
     };
     *lock() = Some(Box::new(st));
 }
